@@ -99,12 +99,12 @@ prop("C14", [PL.rule_PL4, PL.rule_PL5, PN.rule_PN_plugin, PL.rule_PL1, PL.rule_P
      "equals the tower id, otherwise SignatureError -> proof persisted before the status flips -> permanent on the retry path (PL4); sends only to reachable towers, status predicate tables (PL5); no reply class panics (PNp), "
      "is left unrecorded (PL1) or wedges the retry loop (PL2). NOT decided: 'any reply' for panics inside reqwest/serde.",
      technique="guard facts at call sites + origin equality of verified/recorded values + classified-unwrap table")
-prop("C15", [WT.rule_HT1, PN.rule_PN2],
+prop("C15", [WT.rule_HT1, PN.rule_PN2, WT.rule_WT4],
      STATIC + "Decided: the tonic codes constructible in the public handlers are all mapped by explicit arms of match_status to the documented error constants, UNEXPECTED_ERROR only on the catch-all; handle_rejection / ApiError "
      "emit only documented codes; four POST routes with their body limits, one shared recover(handle_rejection); empty/size checks precede forwarding (HT1); what the internal service unwraps on request data is validated "
      "by the HTTP handler before the gRPC call (PN2). NOT decided: promptness, 5xx freedom inside warp/tonic, state unchanged after non-200.",
      technique="finite code tables extracted from MIR switches + validated-before-forwarded facts")
-prop("C16", [WT.rule_WT1, WT.rule_WT2, WT.rule_WT3, RT.rule_AU1],
+prop("C16", [WT.rule_WT1, WT.rule_WT2, WT.rule_WT3, WT.rule_WT4, RT.rule_AU1],
      STATIC + "Decided: per endpoint both sides (de)serialise the same generated message type (so names, renames and adapters agree by construction); the two ApiError structs are twins; status Display/FromStr are inverse "
      "bijections and agree with the discriminants; custom serde adapters are inverse pairs; signed layouts determine their fields; the signed message templates agree. NOT decided: round-trip identity over all values, body-size limit vs largest request.",
      technique="type-argument agreement at (de)serialisation call sites + table extraction")
